@@ -24,8 +24,11 @@
 //! under the SQLite-atomic-commit semantics and answers, for every N, `before` / `after`, plus
 //! the set of tables the transaction may change; both are compared with what was observed.
 //!
-//! Deterministic: the crash point is a call count, never a time.  quick = kinds `create` and
-//! `purge` × every N; thorough = all kinds × every N (strided above a cap, first/last 40 always).
+//! Deterministic: the crash point is a call count, never a time.  quick = kind `create` plus one
+//! of `purge` / `modify` / `delete` (by seed) × every N; thorough (and any run with `--budget` > 1)
+//! = all seven kinds; a kind with more storage calls than the cap (`schema`, `reindex`, `init`:
+//! 5-9 k) is sampled: first 40, last 40 (around the COMMIT) and an even stride whose offset rotates
+//! with the seed (`--cap 100000` = every N).
 use hlib::*;
 use kanidm_proto::internal::FsType;
 use kanidmd_lib::be::{Backend, BackendConfig};
@@ -209,7 +212,7 @@ fn child_main(a: &Args) -> ! {
             std::process::exit(3)
         }
     };
-    if kind != "init" {
+    if kind != "init" && !a.extra.contains_key("noinit") {
         if let Err(e) = init(&s, T_OPEN) {
             eprintln!("child: {e}");
             std::process::exit(3)
@@ -420,13 +423,16 @@ fn remove_db(p: &Path) {
 }
 
 /// Run the child on `db`; returns (how it ended, trace file content if it got that far).
-fn run_child(cx: &Ctx, db: &Path, kind: &str, abort_at: u64, want_trace: bool) -> Result<(String, Option<J>), String> {
+fn run_child(cx: &Ctx, db: &Path, kind: &str, abort_at: u64, want_trace: bool, noinit: bool) -> Result<(String, Option<J>), String> {
     let tr = PathBuf::from(format!("{}.trace", db.display()));
     let _ = std::fs::remove_file(&tr);
     let mut cmd = std::process::Command::new(&cx.exe);
     cmd.args(["--child", "1", "--db", &db.display().to_string(), "--kind", kind, "--abort", &abort_at.to_string()]);
     if want_trace {
         cmd.args(["--traceout", &tr.display().to_string()]);
+    }
+    if noinit {
+        cmd.args(["--noinit", "1"]);
     }
     cmd.stdout(std::process::Stdio::null());
     let out = cmd.output().map_err(|e| format!("spawn: {e}"))?;
@@ -475,7 +481,7 @@ fn prepare_kind(cx: &Ctx, kind: &str, base: &Path) -> Result<KindRef, String> {
     for round in 0..2 {
         let p = cx.dir.join(format!("{kind}-ref-before{round}.db"));
         copy_db(base, &p)?;
-        let (how, _) = run_child(cx, &p, "none", 0, false)?;
+        let (how, _) = run_child(cx, &p, "none", 0, false, mask)?;
         if how != "exit0" {
             return Err(format!("{kind}: before-child ended {how}"));
         }
@@ -483,7 +489,7 @@ fn prepare_kind(cx: &Ctx, kind: &str, base: &Path) -> Result<KindRef, String> {
         remove_db(&p);
         let p = cx.dir.join(format!("{kind}-ref-after{round}.db"));
         copy_db(base, &p)?;
-        let (how, tr) = run_child(cx, &p, kind, 0, true)?;
+        let (how, tr) = run_child(cx, &p, kind, 0, true, false)?;
         if how != "exit0" {
             return Err(format!("{kind}: clean child ended {how}"));
         }
@@ -557,7 +563,7 @@ fn run_case(cx: &Ctx, kr: &KindRef, n: u64) -> CaseOut {
     let p = cx.dir.join(format!("{}-crash-{n}.db", kr.kind));
     let r = (|| -> Result<(String, Obs), String> {
         copy_db(&kr.base, &p)?;
-        let (how, _) = run_child(cx, &p, &kr.kind, n, false)?;
+        let (how, _) = run_child(cx, &p, &kr.kind, n, false, false)?;
         let obs = observe(&p, kr.kind == "init")?;
         Ok((how, obs))
     })();
@@ -592,7 +598,7 @@ fn judge(kr: &KindRef, c: &CaseOut) -> Result<&'static str, (String, String, Str
         return Err((
             "mixed-state".into(),
             "raw dump equals the before-dump or the after-dump".into(),
-            format!("differs from before in {db:?} and from after in {da:?}"),
+            format!("differs from before in {} and from after in {}", brief(&db), brief(&da)),
         ));
     };
     if !obs.verify.is_empty() {
@@ -613,8 +619,14 @@ fn judge(kr: &KindRef, c: &CaseOut) -> Result<&'static str, (String, String, Str
     Ok(side)
 }
 
-fn points_for(total: u64, cap: u64) -> Vec<u64> {
-    // every N in 1..=total+1 (total+1 = no crash); above the cap: first/last 40 + even stride
+fn brief(s: &BTreeSet<String>) -> String {
+    let v: Vec<&String> = s.iter().take(8).collect();
+    format!("{} tables {v:?}{}", s.len(), if s.len() > 8 { " …" } else { "" })
+}
+
+fn points_for(total: u64, cap: u64, seed: u64) -> Vec<u64> {
+    // every N in 1..=total+1 (total+1 = no crash); above the cap: the first 40, the 40 around and after the
+    // COMMIT (= the last calls) and an even stride whose offset rotates with the seed
     let all: Vec<u64> = (1..=total + 1).collect();
     if total + 1 <= cap {
         return all;
@@ -625,7 +637,7 @@ fn points_for(total: u64, cap: u64) -> Vec<u64> {
         s.insert(total + 1 - (i - 1));
     }
     let stride = (total as f64 / cap as f64).ceil().max(1.0) as u64;
-    let mut i = 1;
+    let mut i = 1 + seed % stride;
     while i <= total {
         s.insert(i);
         i += stride;
@@ -660,14 +672,15 @@ fn main() {
         vec![k.clone()]
     } else if let Some(k) = a.extra.get("kinds") {
         k.split(',').map(|s| s.to_string()).collect()
-    } else if a.thorough() {
+    } else if a.thorough() || a.budget > 1 {
+        // search mode (a fingerprint changed / an obligation broke): every kind, also in the quick tier
         KINDS.iter().map(|s| s.to_string()).collect()
     } else {
         // the quick tier rotates the second kind with the seed; `create` always runs
         let rot = ["purge", "modify", "delete"];
         vec!["create".to_string(), rot[(a.seed as usize) % rot.len()].to_string()]
     };
-    let cap: u64 = a.extra.get("cap").map(|s| s.parse().expect("cap")).unwrap_or(if a.thorough() { 700 } else { 400 }) * a.budget.max(1);
+    let cap: u64 = a.extra.get("cap").map(|s| s.parse().expect("cap")).unwrap_or(if a.thorough() { 200 * a.budget.clamp(1, 3) } else if a.budget > 1 { 150 } else { 400 });
     let workers: usize = a.extra.get("workers").map(|s| s.parse().expect("workers")).unwrap_or(12);
 
     let t_start = std::time::Instant::now();
@@ -764,7 +777,7 @@ fn main() {
         // ---- crash cases
         let points: Vec<u64> = match &replay {
             Some((_, n)) => vec![*n],
-            None => points_for(total, cap),
+            None => points_for(total, cap, a.seed),
         };
         if (points.len() as u64) < total + 1 {
             rep.exhaustive = false;
